@@ -24,6 +24,7 @@ import codecs
 import contextlib
 import glob as globmod
 import importlib
+import io
 import json
 import locale
 import os
@@ -412,7 +413,8 @@ def run_step(scn, root, fault=None, inert=False, kill_fd=None):
     if scn['in'].get('relative'):
         os.chdir(root)
     try:
-        with instrumented(rec):
+        # ruamel's emitter prints repr(data) to stdout when stream.write raises: keep it off the check's output
+        with instrumented(rec), contextlib.redirect_stdout(io.StringIO()):
             try:
                 mod.run_step(ctx)
                 outcome = {'end': 'ok'}
